@@ -409,7 +409,7 @@ def jobs_for(prop, tier):
         return [j for j in jobs_option_below(tier) if j[1][3] == 'combinations'] + jobs_combinations(tier)
     if prop == 'C03':
         return jobs_c03(tier) + jobs_option_reduce(tier)
-    return {'C02': jobs_c02, 'C03': jobs_c03, 'C04': jobs_c04, 'C06': jobs_c06, 'C08': (lambda t: jobs_c08(t) + jobs_numpy(t) + jobs_union(t)), 'C12': jobs_numpy, 'C10': jobs_c10, 'C05': jobs_c05, 'C09': jobs_c09}.get(prop, lambda t: [])(tier)
+    return {'C02': jobs_c02, 'C03': jobs_c03, 'C04': jobs_c04, 'C06': jobs_c06, 'C08': (lambda t: jobs_c08(t) + jobs_numpy(t) + jobs_union(t)), 'C17': jobs_c17, 'C12': jobs_numpy, 'C10': jobs_c10, 'C05': jobs_c05, 'C09': jobs_c09}.get(prop, lambda t: [])(tier)
 
 
 # ------------------------------------------------------------------------------------------------ C01: getitem_next of list nodes
@@ -2314,3 +2314,64 @@ def jobs_union(tier):
             for mp in ((), ('B',), ('C',)):
                 js.append((h_union_simplify, (o, i, mp), 600))
     return js
+
+
+# ------------------------------------------------------------------------------------------------ C17: depth and regularity queries follow the node structure
+DEPTH_NODES = [('ListOffsetArray64', (1, 1), None, True), ('ListArray64', (1,), None, True), ('RegularArray', (2, 2), None, True),
+               ('IndexedOptionArray64', (0, 1), None, False), ('IndexedArray64', (0, 0), None, False), ('ByteMaskedArray', (0, 1), True, False), ('UnmaskedArray', (0, 0), None, False)]
+
+
+@guard
+def h_depth_queries(cls, dims, variant, is_list):
+    """purelist_depth / minmax_depth / branch_depth / numfields of a node over a content of any depth: a list node is one level deeper than its
+    content, an option or indexed node exactly as deep; field counts pass through"""
+    nc = NodeCtx(['LOA', 'LA', 'RA', 'IA', 'BMA', 'UMA', 'IDX', 'CNT', 'UTL', 'KD', 'IDS'], [], unwind=10)
+    d, dmin, dmax, bflag, bdepth, nf = [nc.m.bv(x) for x in ('depth', 'mindepth', 'maxdepth', 'branches', 'branchdepth', 'numfields')]
+    reg = z3.Bool('content_isregular')
+    nc.m.assume(d >= 1, d <= 100, dmin >= 1, dmin <= dmax, dmax <= 100, bdepth >= 1, bdepth <= 100, z3.Or(bflag == 0, bflag == 1), nf >= -1, nf <= 100)
+    S = nc.slot
+    nc.m.eng.stubs['vf$slot%d' % S('14purelist_depthEv')] = lambda eng, fr, ins, st, name, argv: d
+    nc.m.eng.stubs['vf$slot%d' % S('12minmax_depthEv')] = lambda eng, fr, ins, st, name, argv: [dmin, dmax]
+    nc.m.eng.stubs['vf$slot%d' % S('12branch_depthEv')] = lambda eng, fr, ins, st, name, argv: [z3.Extract(7, 0, bflag), bdepth]
+    nc.m.eng.stubs['vf$slot%d' % S('9numfieldsEv')] = lambda eng, fr, ins, st, name, argv: nf
+    this, vals, short, rp = generic_node(nc, cls, dims, variant)
+    inc = 1 if is_list else 0
+    obls = []
+
+    def call(sym):
+        cands = [f for mod_ in nc.m.eng.mods for f in mod_.func_src if f.startswith('_ZNK7awkward%s%s' % (short, sym))]
+        if not cands:
+            raise Unsupported('%s of %s not found' % (sym, cls))
+        return nc.m.call(cands[0], [this])
+    o1 = call('14purelist_depthEv')
+    obls.append(('purelist_depth is the content depth%s' % (' + 1' if inc else ''), z3.Or(o1.raised, o1.ret != d + inc)))
+    o2 = call('12minmax_depthEv')
+    obls.append(('minmax_depth shifts both bounds by %d' % inc, z3.Or(o2.raised, o2.ret[0] != dmin + inc, o2.ret[1] != dmax + inc)))
+    o3 = call('12branch_depthEv')
+    b0 = o3.ret[0]
+    obls.append(('branch_depth keeps the branching flag and shifts the depth by %d' % inc, z3.Or(o3.raised, (z3.Extract(0, 0, b0) if b0.size() > 1 else b0) != z3.Extract(0, 0, bflag), o3.ret[1] != bdepth + inc)))
+    o5 = call('9numfieldsEv')
+    obls.append(('numfields passes through', z3.Or(o5.raised, o5.ret != nf)))
+    def replay(model, ent):
+        ev = lambda t: model.eval(t, model_completion=True).as_signed_long()
+        D = ev(d)
+        if not (ev(dmin) == D and ev(dmax) == D and ev(bflag) == 0 and ev(bdepth) == D and ev(nf) == -1 and 1 <= D <= 3):
+            return False, 'content depths not realisable by a plain nested list (replay needs min = max = branch depth <= 3, no fields)', {}
+        lc = max(model.eval(nc.lencontent, model_completion=True).as_signed_long(), 4)
+        if lc > 60:
+            return False, 'content too long to replay', {}
+        head, inp = rp(model, lc)
+        toks = head.split()
+        cnt = int(toks[1])
+        leaf = 'i64 %s ' % fullnative.ints(range(cnt * (2 ** (D - 1))))
+        for lvl in range(D - 1):
+            leaf += 'regular 2 %d ' % (cnt * (2 ** (D - 2 - lvl)))
+        prog = leaf + ' '.join(toks[2 + cnt:]) + ' depths'
+        want = [D + inc, D + inc, D + inc, 0, D + inc, -1]
+        return akrun_check(prog, want, '%s over a content of depth %d: [purelist_depth, min, max, branches, branch depth, numfields]' % (cls, D))
+    return mdischarge(nc.m, '%s depth / field-count queries' % cls, obls, [], replay=replay, prefer=[d <= 2, dmin == d, dmax == d, bflag == 0, bdepth == d, nf == -1, nc.lencontent <= 8],
+                      extra=dict(bounds='content depth, min/max depth, branch depth <= 100, any branching flag, regularity and field count symbolic'))
+
+
+def jobs_c17(tier):
+    return [(h_depth_queries, a, 300) for a in DEPTH_NODES]
